@@ -8,6 +8,7 @@ import time
 from harness.common import Prop, canon, run_driver, case_hash, scale, code_projection
 from harness import gen_build as G
 from harness import cxx_run as X
+from harness import gen_models as M
 
 
 def configured_sem(cfg_ports, pname, side):
@@ -137,10 +138,47 @@ class ProgProp(Prop):
         return []
 
     def streams(self, rng, tier):
-        return []
+        # builds that must be REFUSED late: one formal of one event retyped to something that is not (exactly one)
+        # extern - an enum or interface of the model, or a name declared nowhere.  A port whose events are rerouted
+        # looks the type up and the build fails; the model decides which (ports that are passed through never look).
+        # An event that cannot be rerouted must not silently stay on the pass-through path.
+        n = 80 if tier == 'quick' else scale(2500)
+        out = []
+        for _ in range(n):
+            c = self.gen_case(rng)
+            info = c['_info']
+            typed = [(i, e, k) for i in info['interfaces'] for e in i['events'] for k, _f in enumerate(e['formals'])]
+            if not typed:
+                continue
+            itf, ev, k = rng.choice(typed)
+            nonext = [list(d[1]) for d in info['decls'] if d[0] in ('enum', 'interface')]
+            newtype = rng.choice(nonext + [['Nope'], ['Nope', 'T']])
+            src = c['src']
+            el = G.find_elem(src, lambda e: e['k'] == 'interface' and e['name'] == [itf['fq'][-1]] and
+                             any(x['name'] == ev['name'] and len(x['formals']) > k for x in e['events']))
+            if el is None:
+                continue
+            for x in el['events']:
+                if x['name'] == ev['name'] and len(x['formals']) > k:
+                    x['formals'][k]['type'] = newtype
+            d = X.strip(c)
+            d.update(op='build', ast=M.enc_root(src), expect='any', fault='unresolvable-formal')
+            out.append(d)
+        yield 'unresolvable-formal', out
 
     def impl(self, case):
-        return None
+        return G.build_impl(case)
+
+    def project(self, case, out):
+        from harness.common import code_projection
+        return code_projection(out)
+
+    def shape(self, case, impl_out):
+        from harness.common import canon
+        return canon([case.get('src'), case.get('cfg')])
+
+    def classify(self, case, impl_out):
+        return impl_out.get('err', 'ok') if isinstance(impl_out, dict) else 'ok'
 
     def extra(self, ctx):
         rng, tier = ctx['rng'], ctx['tier']
